@@ -44,11 +44,22 @@ type item struct {
 	progID string    // jobs with the same progID share model program and environment
 	obs    run.Obs
 	prev   *item // the render executed just before this one in the same process (same pools)
+	// destination-object sequences: all renders of the sequence up to this one (oldest first), this render's position,
+	// and loose = the calls on the destination cannot be compared with the model (a *bytes.Buffer shows none; behind a
+	// bufio.Writer a writer without WriteString is called in smaller pieces than the model's), only results and bytes
+	seq   []*item
+	pos   int
+	loose bool
+	// specOnly: behind the caller's bufio.Writer stands a FAILING writer without WriteString; the model does not
+	// describe how bufio feeds it, so only the specification predicate is evaluated on what was observed
+	specOnly bool
 }
 
 type checker struct {
-	c     *core.Ctx
-	items []*item
+	c       *core.Ctx
+	items   []*item
+	frameOK map[string]bool // per family: no destination object other than a render's own saw a call
+	nextSlot int
 }
 
 func filler(n int) string {
@@ -323,6 +334,25 @@ func inputOf(it *item) map[string]any {
 	if j.Reuse {
 		in["same_destination_value_as_previous_direct_render"] = true
 	}
+	if it.seq != nil {
+		if j.Slot != 0 {
+			in["destination_object"] = j.Slot
+			in["destination_kind"] = destKind(j.Sink)
+			in["pool_emptied_before_render"] = j.GC
+		}
+		var before []map[string]any
+		for _, p := range it.seq {
+			if p == it {
+				break
+			}
+			e := map[string]any{"tag": p.job.Tag, "destination_object": p.job.Slot, "sink": p.job.Sink, "pool_emptied_before_render": p.job.GC, "to_go_html": p.job.HTML, "cancel": p.job.Cancel, "result": p.obs.Res}
+			if p.job.Slot != 0 {
+				e["destination_kind"] = destKind(p.job.Sink)
+			}
+			before = append(before, e)
+		}
+		in["earlier_renders_of_this_sequence_same_program_same_process"] = before
+	}
 	if it.prev != nil {
 		in["previous_render_in_same_process"] = map[string]any{"tag": it.prev.job.Tag, "sink": it.prev.job.Sink, "result": it.prev.obs.Res}
 	}
@@ -342,7 +372,12 @@ func (k *checker) compare() {
 	c := k.c
 	groups := map[string]*group{}
 	var order []string
+	var wrapped []*item
 	for _, it := range k.items {
+		if it.job.Slot != 0 && it.job.Sink.Wrap > 0 {
+			wrapped = append(wrapped, it)
+			continue
+		}
 		key := fmt.Sprintf("%d/%v/%v", it.cap, it.job.Sink.SW, it.job.Sink.Flusher)
 		g, ok := groups[key]
 		if !ok {
@@ -461,7 +496,7 @@ func (k *checker) compare() {
 			if !bytes.Equal(mout, o.Out) {
 				diffs = append(diffs, fmt.Sprintf("bytes received: model %d bytes, implementation %d bytes (first difference at %d)", len(mout), len(o.Out), firstDiff(mout, o.Out)))
 			}
-			if !o.Spun && !it.job.HTML {
+			if !o.Spun && !it.job.HTML && !it.loose {
 				if il := encCalls(o.Calls, it.cap); il != mlog {
 					diffs = append(diffs, fmt.Sprintf("calls on the destination: model %s, implementation %s", trunc(mlog, 200), trunc(il, 200)))
 				}
@@ -496,15 +531,35 @@ func (k *checker) compare() {
 			if o.Res != "nil" || it.job.Cancel != 0 {
 				key = fmt.Sprintf("%s|%s|%d|%d|%d|%v|%s", it.family, it.progID, it.cap, it.job.Sink.Mode, it.job.Sink.Limit, it.job.Sink.SW, o.Res)
 			}
+			if it.job.Slot != 0 {
+				// a render into a destination object of a sequence: non-trivial when it fails or comes back to an object
+				key = ""
+				if o.Res != "nil" || it.revisit() {
+					key = fmt.Sprintf("%s|%s|%s|%d|%d|%d|%v|%s", it.family, it.progID, destKind(it.job.Sink), it.pos, it.job.Sink.Mode, it.job.Sink.Limit, it.job.GC, o.Res)
+				}
+				c.Count(key)
+				c.Hist(it.family + ": " + destClass(it))
+				k.foreign(it, tieOK)
+				continue
+			}
 			c.Count(key)
 			c.Hist(it.family + ": " + resClass(o.Res))
 		}
 	}
+	k.compareWrapped(wrapped, tieOK, propOK)
 	fams := make([]string, 0, len(tieOK))
 	for f := range tieOK {
 		fams = append(fams, f)
 	}
 	sort.Strings(fams)
+	ffams := make([]string, 0, len(k.frameOK))
+	for f := range k.frameOK {
+		ffams = append(ffams, f)
+	}
+	sort.Strings(ffams)
+	for _, f := range ffams {
+		c.Oblige("correspondence", f+": no destination object other than the one a render was given is called during that render or the caller's flush after it", k.frameOK[f], "")
+	}
 	for _, f := range fams {
 		c.Oblige("correspondence", f+": model result / bytes received / destination calls / flusher calls = implementation on every job", tieOK[f], "")
 		c.Oblige("correspondence", f+": extracted specification predicate spec_okb holds of the implementation's observations on every job", propOK[f], "")
@@ -1030,10 +1085,10 @@ func (k *checker) sweep(family string, cap int, progID string, model *run.Node, 
 }
 
 func Run(c *core.Ctx) {
-	c.Rule = "one evaluation = one render job (program x environment x context x destination fault) executed by the real runtime and by the extracted model; distinct non-trivial = distinct (family, program, buffer size, fault mode, fault offset, destination kind, result) with a non-nil result or a cancelled context"
+	c.Rule = "one evaluation = one render job (program x environment x context x destination fault) executed by the real runtime and by the extracted model; distinct non-trivial = distinct (family, program, buffer size, fault mode, fault offset, destination kind, result) with a non-nil result or a cancelled context; in the destination-object families: distinct (family, program, kind of destination object, position in the sequence, fault, pool emptied, result) of a render that fails or comes back to an object used before"
 	c.Trusted = append(c.Trusted,
-		"specification spec/RenderSpec.v (denote: the document and the program's own first failure; first_refusal; spec_ok)",
-		"model of Go's bufio.Writer (model/Bufio.v) and of the generated skeleton (model/RenderSkel.v), tied to the code by this run",
+		"specification spec/RenderSpec.v (denote: the document and the program's own first failure; first_refusal; spec_ok) and spec/RenderDestSpec.v (spec_wrap_ok: the same on the writer behind a buffered writer the caller owns, plus: no other destination object is called)",
+		"model of Go's bufio.Writer (model/Bufio.v), of the generated skeleton (model/RenderSkel.v) and of the caller's own bufio.Writer as a destination (model/RenderDest.v), tied to the code by this run",
 		"translation of the generated probe text into the model's program shape (harness/internal/c10/translate.go): line-for-line match of prologue and error handlers, deviations reported",
 		"extraction: ExtrOcamlBasic only; ocaml/driver.ml", "Go harness internal/c10, the Go toolchain, sync.Pool's contract (Get returns a value previously Put, or New())")
 	c.Assume = append(c.Assume,
@@ -1041,16 +1096,18 @@ func Run(c *core.Ctx) {
 		"TEMPL_DEV_MODE is off (runtime/watchmode.go WriteString then is io.WriteString)",
 		"Go expressions and hand-written components are opaque: an expression yields (string, error); a hand-written component writes/returns as scripted, checks every write error and does not retain the writer",
 		"a render's context does not change state during the render",
-		"a destination value used again by a later render is modelled as a destination in the state it then has (its own record of accepted bytes starting empty)")
+		"a destination value used again by a later render is modelled as a destination in the state it then has (its own record of accepted bytes starting empty)",
+		"a caller that hands Render its own *bufio.Writer flushes it after Render and Resets it when that Flush reports an error (C10_buffered_destination: the writer is then as new); behind it the model wants a writer with WriteString - behind a bufio.Writer a writer without it is compared on results and bytes only while it never fails, and judged by the specification predicate alone when it fails")
 	c.Proofs()
 	c.Oblige("side-condition", "TEMPL_DEV_MODE is not set in the check's environment", os.Getenv("TEMPL_DEV_MODE") == "", "")
 
-	k := &checker{c: c}
+	k := &checker{c: c, frameOK: map[string]bool{}}
 	r := c.Rng
 	smallCap := 16
 
 	// ---- family 1: hand-built components over the real runtime, in this process (buffer size 4096)
 	nHand := c.N(12, 150)
+	var handSrcs []progSrc
 	for p := 0; p < nHand; p++ {
 		id := 0
 		maxLit := []int{20, 60, 1500, 5000}[r.Intn(4)]
@@ -1076,7 +1133,10 @@ func Run(c *core.Ctx) {
 		k.sweep("hand-built in process (4096)", 4096, pid, prog, func() *run.Job { return &run.Job{Prog: prog, Env: env} }, offs, []int{1, 2, 3}, 2)
 		jc := &run.Job{Prog: prog, Env: env, Cancel: 1 + r.Intn(2), Tag: pid + " cancelled context"}
 		k.add("hand-built in process (4096)", 4096, pid, prog, jc)
+		handSrcs = append(handSrcs, progSrc{pid, prog, func() *run.Job { return &run.Job{Prog: prog, Env: env} }, dl})
 	}
+	// ---- family 1b: the same programs over destination objects the caller keeps and comes back to
+	k.destSequences("destination objects in process (4096)", 4096, handSrcs, c.N(25, 250))
 	for _, it := range k.items {
 		it.obs = run.Exec(it.job, nil)
 	}
@@ -1101,6 +1161,7 @@ func Run(c *core.Ctx) {
 
 		// family 2: hand-built, buffer size 16, every byte offset, all fault modes incl. (0,nil) for ever
 		nSmall := c.N(25, 200)
+		var srcs4096, srcs16 []progSrc
 		for p := 0; p < nSmall; p++ {
 			id := 0
 			prog := &run.Node{K: "templ", Guard: r.Intn(5) != 0, Kids: randBody(r, 2, []int{6, 14, 40}[r.Intn(3)], &id)}
@@ -1120,6 +1181,7 @@ func Run(c *core.Ctx) {
 			offs := offsets(r, dl, smallCap, true, 0)
 			k.sweep("hand-built in runner (16)", smallCap, pid, prog, func() *run.Job { return &run.Job{Prog: prog, Env: env} }, offs, []int{1, 2, 3, 4}, c.N(2, 4))
 			k.add("hand-built in runner (16)", smallCap, pid, prog, &run.Job{Prog: prog, Env: env, Cancel: 1, Tag: pid + " cancelled context"})
+			srcs16 = append(srcs16, progSrc{pid, prog, func() *run.Job { return &run.Job{Prog: prog, Env: env} }, dl})
 		}
 		subSmall = append(subSmall, k.items[mark:]...)
 		mark = len(k.items)
@@ -1192,6 +1254,14 @@ func Run(c *core.Ctx) {
 				pid := fmt.Sprintf("probe:%s/%s", pr.name, v.what)
 				mk := func() *run.Job { return &run.Job{Probe: pr.name, Env: v.env, Comps: v.comps} }
 				dl := docLen(model, v.env, nil)
+				if !pr.huge && (vi == 0 || vi == len(variants)-1) {
+					for w := 0; w < 1+2*(len(variants)-1-vi)/(len(variants)-1); w++ { // the all-fine variant three times, a failing one once
+						srcs4096 = append(srcs4096, progSrc{pid, model, mk, dl})
+						if !pr.large {
+							srcs16 = append(srcs16, progSrc{pid, model, mk, dl})
+						}
+					}
+				}
 				for _, capv := range []int{4096, smallCap} {
 					fam := fmt.Sprintf("generated probes (%d)", capv)
 					m0 := len(k.items)
@@ -1250,6 +1320,11 @@ func Run(c *core.Ctx) {
 				}
 			}
 		}
+		// families 5, 6: destination objects the caller keeps and comes back to (kinds of writer, the caller's own
+		// bufio.Writer, emptied pool), over the probe templates and the small hand-built programs
+		sub4096 = append(sub4096, k.destSequences("destination objects in runner (4096)", 4096, srcs4096, c.N(120, 1500))...)
+		subSmall = append(subSmall, k.destSequences("destination objects in runner (16)", smallCap, srcs16, c.N(150, 2000))...)
+
 		// expression positions against the template source: Line is the 1-based line of the expression, Col the
 		// column just past it
 		posOK := true
@@ -1319,4 +1394,376 @@ func Run(c *core.Ctx) {
 			c.Sample(map[string]any{"tag": it.job.Tag, "family": it.family, "sink": it.job.Sink, "result": "the render did not return (destination answers (0,nil) to a large write); stopped by the watchdog"})
 		}
 	}
+}
+
+// ---------- destination objects: kinds, reuse, the caller's own buffered writer ----------
+
+func destKind(sp run.SinkSpec) string {
+	inner := "Write"
+	switch {
+	case sp.RF:
+		inner = "Write+WriteString+Flush+ReadFrom"
+	case sp.SW && sp.Flusher:
+		inner = "Write+WriteString+Flush"
+	case sp.SW:
+		inner = "Write+WriteString"
+	case sp.Flusher:
+		inner = "Write+Flush"
+	}
+	switch {
+	case sp.BB:
+		return "*bytes.Buffer"
+	case sp.Wrap > 0:
+		return fmt.Sprintf("*bufio.Writer(size %d) in front of a writer with %s", sp.Wrap, inner)
+	}
+	return "writer with " + inner
+}
+
+func (it *item) revisit() bool {
+	for _, p := range it.seq {
+		if p == it {
+			break
+		}
+		if p.job.Slot == it.job.Slot {
+			return true
+		}
+	}
+	return false
+}
+
+func destClass(it *item) string {
+	sp := it.job.Sink
+	kind := "scripted writer"
+	switch {
+	case sp.BB:
+		kind = "*bytes.Buffer"
+	case sp.RF && sp.Wrap == 0:
+		kind = "http-like writer"
+	case sp.Wrap > 0 && sp.Wrap >= it.cap:
+		kind = "caller's bufio.Writer >= templ's buffer"
+	case sp.Wrap > 0:
+		kind = "caller's bufio.Writer < templ's buffer"
+	}
+	if it.revisit() {
+		kind += ", object used again"
+	}
+	if it.job.GC {
+		kind += ", pool emptied"
+	}
+	if it.job.Sink.Mode != 0 {
+		kind += ", failing"
+	}
+	return kind
+}
+
+func foreignTotal(fs []run.Foreign) int {
+	t := 0
+	for _, f := range fs {
+		t += f.Calls + f.Bytes
+	}
+	return t
+}
+
+// foreign judges "the caller's other destination objects are untouched" for a render into a plain destination object.
+func (k *checker) foreign(it *item, tieOK map[string]bool) {
+	c := k.c
+	if _, ok := k.frameOK[it.family]; !ok {
+		k.frameOK[it.family] = true
+	}
+	if len(it.obs.Foreign) == 0 {
+		return
+	}
+	k.frameOK[it.family] = false
+	if c.NFails(it.family+": other destination objects untouched") < 3 {
+		in := inputOf(it)
+		in["observed"] = map[string]any{"result": it.obs.Res, "received_bytes": len(it.obs.Out), "calls_on_other_destination_objects": it.obs.Foreign}
+		c.Fail("property", it.family+": other destination objects untouched", "bytes-delivered-to-another-destination", in,
+			fmt.Sprintf("while this render ran, destination object(s) it was not given were called: %+v (a document, or part of one, went to the writer of another render)", it.obs.Foreign))
+	}
+}
+
+// compareWrapped: renders whose destination is the caller's own *bufio.Writer. The model (model/RenderDest.v) is run
+// on each, the specification spec_wrap_okb is evaluated on what the writer BEHIND the caller's bufio.Writer was handed.
+func (k *checker) compareWrapped(items []*item, tieOK, propOK map[string]bool) {
+	c := k.c
+	if len(items) == 0 {
+		return
+	}
+	byCap := map[int][]*item{}
+	var caps []int
+	for _, it := range items {
+		if _, ok := byCap[it.cap]; !ok {
+			caps = append(caps, it.cap)
+		}
+		byCap[it.cap] = append(byCap[it.cap], it)
+	}
+	sort.Ints(caps)
+	var reqs []drv.Req
+	var members [][]*item
+	for _, cp := range caps {
+		var m *menc
+		var cur []*item
+		last := ""
+		size := 0
+		flush := func() {
+			if m != nil && len(cur) > 0 {
+				reqs = append(reqs, drv.Req{Fn: "runw", Args: m.args})
+				members = append(members, cur)
+			}
+			m, cur, last, size = nil, nil, "", 0
+		}
+		for _, it := range byCap[cp] {
+			if m == nil {
+				m = &menc{}
+				m.args = append(m.args, []byte(strconv.Itoa(cp)))
+			}
+			before := len(m.args)
+			if it.progID == "" || it.progID != last {
+				if last != "" || len(cur) > 0 {
+					m.op('p')
+				}
+				m.node(it.model)
+				m.op('z')
+				keys := make([]string, 0, len(it.job.Env))
+				for key := range it.job.Env {
+					keys = append(keys, key)
+				}
+				sort.Strings(keys)
+				for _, key := range keys {
+					colon := strings.IndexByte(key, ':')
+					m.push([]byte(key[:colon]))
+					m.push([]byte(key[colon+1:]))
+					m.push(it.job.Env[key].S)
+					m.opt(it.job.Env[key].Err)
+					m.op('V')
+				}
+				last = it.progID
+			}
+			j := it.job
+			m.num(j.Sink.Wrap)
+			m.opt(j.Cancel)
+			m.flag(false)
+			m.num(j.Sink.Mode)
+			m.num(j.Sink.Limit)
+			m.num(j.Sink.ErrID)
+			m.num(0)
+			m.num(0)
+			m.op('g')
+			for _, cl := range it.obs.Calls {
+				m.flag(cl.Off > j.Sink.Wrap)
+				m.num(cl.Off)
+				m.num(cl.Acc)
+				m.opt(cl.Err)
+				m.op('c')
+			}
+			m.push([]byte(it.obs.Res))
+			m.push(it.obs.Out)
+			m.push([]byte(it.obs.FRes))
+			m.num(it.obs.NRender)
+			m.num(foreignTotal(it.obs.Foreign))
+			m.op('k')
+			cur = append(cur, it)
+			for _, a := range m.args[before:] {
+				size += len(a)
+			}
+			if size > 6<<20 || len(cur) >= 300 || len(m.args) > 30000 {
+				flush()
+			}
+		}
+		flush()
+	}
+	tW := time.Now()
+	res := k.modelParallel(reqs)
+	c.Extra["seconds_model_callers_bufio"] = time.Since(tW).Seconds()
+	c.Extra["jobs_callers_bufio"] = len(items)
+	for gi, ms := range members {
+		r := res[gi]
+		for mi, it := range ms {
+			if _, ok := tieOK[it.family]; !ok {
+				tieOK[it.family], propOK[it.family] = true, true
+			}
+			if _, ok := k.frameOK[it.family]; !ok {
+				k.frameOK[it.family] = true
+			}
+			if len(r) < 9*(mi+1) {
+				if tieOK[it.family] {
+					c.Fail("tie", it.family+": model = implementation", "", inputOf(it), fmt.Sprintf("the extracted model returned %d fields for %d jobs (%s)", len(r), len(ms), firstField(r)))
+				}
+				tieOK[it.family] = false
+				continue
+			}
+			f := r[9*mi : 9*mi+9]
+			mres, mfres, mgot, mlog, mn1, mthru, spec, doc, de := string(f[0]), string(f[1]), f[2], string(f[3]), string(f[4]), string(f[5]), string(f[6]), f[7], string(f[8])
+			o := it.obs
+			var diffs []string
+			if it.specOnly {
+				mres, mfres, mgot = o.Res, o.FRes, o.Out
+			}
+			if mres != o.Res {
+				diffs = append(diffs, fmt.Sprintf("result: model %s, implementation %s", mres, o.Res))
+			}
+			if mfres != o.FRes {
+				diffs = append(diffs, fmt.Sprintf("the caller's Flush: model %s, implementation %s", mfres, o.FRes))
+			}
+			if !bytes.Equal(mgot, o.Out) {
+				diffs = append(diffs, fmt.Sprintf("bytes handed to the writer behind the caller's bufio.Writer: model %d bytes, implementation %d bytes (first difference at %d)", len(mgot), len(o.Out), firstDiff(mgot, o.Out)))
+			}
+			if len(o.Marks) != 0 {
+				diffs = append(diffs, fmt.Sprintf("the http.Flusher of the writer behind the caller's bufio.Writer was called (%s)", encMarks(o.Marks)))
+			}
+			if !it.loose {
+				if il := encCalls(o.Calls, it.job.Sink.Wrap); il != mlog {
+					diffs = append(diffs, fmt.Sprintf("calls on the writer behind the caller's bufio.Writer: model %s, implementation %s", trunc(mlog, 200), trunc(il, 200)))
+				}
+				if mn1 != strconv.Itoa(o.NRender) || mthru != strconv.Itoa(o.Thru) {
+					diffs = append(diffs, fmt.Sprintf("calls / bytes that had reached the writer behind when Render returned: model %s / %s, implementation %d / %d", mn1, mthru, o.NRender, o.Thru))
+				}
+			}
+			if len(diffs) > 0 {
+				tieOK[it.family] = false
+				if c.NFails(it.family+": model = implementation") < 3 {
+					c.Fail("tie", it.family+": model = implementation", "", inputOf(it), strings.Join(diffs, "; "))
+				}
+			}
+			if len(o.Foreign) > 0 {
+				k.frameOK[it.family] = false
+			}
+			if spec != "1" {
+				propOK[it.family] = false
+				shape, detail := "error-does-not-wrap-cause", fmt.Sprintf("Render returned %s, the caller's Flush %s; the program's own first failure is %s; calls on the writer behind the caller's bufio.Writer %s (the first %d during Render)", o.Res, o.FRes, de, trunc(encCalls(o.Calls, it.job.Sink.Wrap), 200), o.NRender)
+				switch {
+				case !bytes.HasPrefix(doc, o.Out):
+					shape, detail = "received-not-a-prefix", fmt.Sprintf("the writer behind the caller's bufio.Writer received %d bytes that are not a prefix of the %d-byte document (first difference at %d); Render returned %s", len(o.Out), len(doc), firstDiff(doc, o.Out), o.Res)
+				case len(o.Foreign) > 0:
+					shape, detail = "bytes-delivered-to-another-destination", fmt.Sprintf("Render returned %s and the caller's Flush %s; the writer behind the caller's bufio.Writer received %d of %d bytes, while destination object(s) this render was not given were called: %+v", o.Res, o.FRes, len(o.Out), len(doc), o.Foreign)
+				case o.Res == "nil" && o.FRes == "nil" && !bytes.Equal(doc, o.Out):
+					shape, detail = "nil-result-incomplete-output", fmt.Sprintf("Render and the caller's Flush returned nil but the writer behind the caller's bufio.Writer received %d of %d bytes", len(o.Out), len(doc))
+				case o.Res == "nil" && de != "nil":
+					shape, detail = "nil-result-despite-failure", fmt.Sprintf("Render returned nil although the program failed with %s", de)
+				}
+				if c.NFails(it.family+": specification on the implementation") < 4 {
+					in := inputOf(it)
+					in["observed"] = map[string]any{"result": o.Res, "callers_flush": o.FRes, "received_bytes": len(o.Out), "received_tail": string(lastBytes(o.Out, 60)), "document_bytes": len(doc), "calls_on_other_destination_objects": o.Foreign}
+					c.Fail("property", it.family+": specification on the implementation", shape, in, detail)
+				}
+			}
+			key := ""
+			if o.Res != "nil" || o.FRes != "nil" || it.revisit() {
+				key = fmt.Sprintf("%s|%s|%s|%d|%d|%d|%v|%s|%s", it.family, it.progID, destKind(it.job.Sink), it.pos, it.job.Sink.Mode, it.job.Sink.Limit, it.job.GC, o.Res, o.FRes)
+			}
+			c.Count(key)
+			c.Hist(it.family + ": " + destClass(it))
+		}
+	}
+}
+
+// progSrc is a program with an environment from which jobs can be made.
+type progSrc struct {
+	pid   string
+	model *run.Node
+	mk    func() *run.Job
+	dl    int
+}
+
+// destSequences adds sequences of renders over a few destination OBJECTS the caller keeps: each sequence draws 2-3
+// objects of random kinds (scripted writers with and without WriteString / Flush / ReadFrom, a *bytes.Buffer, the
+// caller's own *bufio.Writer of a size below, at and above templ's buffer size in front of such a writer), and
+// renders into them in an order that comes back to an object after renders into the others; the pool is emptied
+// before some renders (so that a brand-new pooled buffer meets that destination first); some renders fail.
+func (k *checker) destSequences(family string, cap int, srcs []progSrc, n int) []*item {
+	r := k.c.Rng
+	var out []*item
+	if len(srcs) == 0 {
+		return nil
+	}
+	wrapSizes := []int{1, 7, cap / 2, cap - 1, cap, cap, cap + 1, 2 * cap, 4096, 4096, 8192, 65536}
+	for s := 0; s < n; s++ {
+		src := srcs[r.Intn(len(srcs))]
+		nObj := 2 + r.Intn(2)
+		kinds := make([]run.SinkSpec, nObj)
+		loose := make([]bool, nObj)
+		ids := make([]int, nObj)
+		for i := range kinds {
+			k.nextSlot++
+			ids[i] = k.nextSlot
+			var sp run.SinkSpec
+			x := r.Intn(10)
+			if i == 0 && r.Intn(4) != 0 {
+				x = 5 + r.Intn(5) // most sequences start on a caller's bufio.Writer
+			}
+			switch {
+			case x < 2:
+				sk := sinkKinds[r.Intn(len(sinkKinds))]
+				sp.SW, sp.Flusher = sk.sw, sk.fl
+			case x == 2:
+				sp.SW, sp.Flusher, sp.RF = true, true, true
+			case x == 3:
+				sp.SW, sp.BB = true, true
+				loose[i] = true
+			default:
+				sp.Wrap = wrapSizes[r.Intn(len(wrapSizes))]
+				if sp.Wrap < 1 {
+					sp.Wrap = 1
+				}
+				switch r.Intn(5) {
+				case 0:
+					sp.SW, sp.Flusher, sp.RF = true, true, true
+				case 1:
+					sp.SW, sp.Flusher = true, true
+				case 2: // e.g. a net.Conn: no WriteString; bufio then feeds it differently from the model, only a never-failing one is compared (results and bytes)
+					loose[i] = true
+				default:
+					sp.SW = true
+				}
+			}
+			kinds[i] = sp
+		}
+		// the order: come back to an object after renders into others
+		nJobs := 3 + r.Intn(4)
+		order := []int{0, 1, 0}
+		for len(order) < nJobs {
+			order = append(order, r.Intn(nObj))
+		}
+		if r.Intn(3) == 0 {
+			order[1], order[2] = order[2], 1%nObj // twice in a row into the same object, then another
+		}
+		offs := offsets(r, src.dl, cap, false, 3)
+		var seq []*item
+		for pos, oi := range order {
+			j := src.mk()
+			j.Slot = ids[oi]
+			j.NewSeq = pos == 0
+			j.Sink = kinds[oi]
+			j.Sink.Mode = 0
+			specOnly := false
+			if !j.Sink.BB && r.Intn(3) == 0 {
+				j.Sink.Mode, j.Sink.Limit, j.Sink.ErrID = 1+r.Intn(3), offs[r.Intn(len(offs))], 1+r.Intn(9)
+				specOnly = loose[oi]
+			}
+			j.GC = (pos == 0 && r.Intn(4) != 0) || r.Intn(8) == 0
+			if r.Intn(25) == 0 {
+				j.Cancel = 1 + r.Intn(2)
+			}
+			j.Tag = fmt.Sprintf("%s sequence %d render %d into object %d (%s)", src.pid, s, pos, ids[oi], destKind(j.Sink))
+			it := k.add(family, cap, src.pid, src.model, j)
+			it.loose, it.specOnly = loose[oi], specOnly
+			seq = append(seq, it)
+			it.seq, it.pos = seq, pos
+			out = append(out, it)
+			if r.Intn(10) == 0 { // a ToGoHTML render in between (the other pool)
+				jh := src.mk()
+				jh.HTML = true
+				jh.Sink = run.SinkSpec{Mode: 0, SW: true}
+				jh.Tag = fmt.Sprintf("%s sequence %d ToGoHTML after render %d", src.pid, s, pos)
+				ih := k.add(family, cap, src.pid, src.model, jh)
+				seq = append(seq, ih)
+				ih.seq, ih.pos = seq, pos
+				out = append(out, ih)
+			}
+		}
+		for _, it := range seq {
+			it.seq = seq
+		}
+	}
+	return out
 }
